@@ -614,7 +614,7 @@ func genCase(t *rapid.T) Case {
 }
 
 func TestC14(t *testing.T) {
-	n := rec.Scale(400, 8000)
+	n := rec.Scale(400, 30000)
 	g := rapid.Custom(genCase)
 	var cases []Case
 	for i := 0; i < n; i++ {
